@@ -52,6 +52,9 @@ def sv_line(path, off, sets):
     return "sv %d %s %s" % (off, hexs(path), " ".join(toks))
 
 
+CA, CB = "sqpqjslgoipqkm", "gjkjqgoskrkion"    # equal length, equal hash, different strings (checked in C15)
+
+
 def rule_universe(path, off):
     u = set()
     for k in boundaries(path):
@@ -63,6 +66,12 @@ def rule_universe(path, off):
     if len(path) > 2:
         u.add(path[:-1])
     u.add("/")
+    # a rule that names another directory of the same length with the same 64-bit hash (the hash is a polynomial in
+    # the bytes: a colliding pair stays one under a common prefix and suffix) must not match either
+    for a, b in ((CA, CB), (CB, CA)):
+        for r in list(u):
+            if ("/" + a) in r or r.startswith(a):
+                u.add(r.replace(a, b))
     return sorted(u)
 
 
@@ -94,7 +103,7 @@ def gen_sieve_cases(tier, seed):
     # random long paths and rule sets
     for i in range(1500 if tier == "quick" else 20000):
         depth = rng.randint(1, 8)
-        path = "/" + "/".join(rng.choice(["a", "bb", ".c", "d.e", "..", "\xe9"]) for _ in range(depth))
+        path = "/" + "/".join(rng.choice(["a", "bb", ".c", "d.e", "..", "\xe9", CA]) for _ in range(depth))
         off = rng.choice([1, 2, 3, 4, 6, len(path), len(path) + 1])
         U = rule_universe(path, off)
         sets = {}
@@ -122,7 +131,7 @@ def gen_decision_cases(tier, seed):
     n = 0
     for i in range(700 if tier == "quick" else 8000):
         depth = rng.randint(1, 3)
-        rel = "/".join(rng.choice(comps) for _ in range(depth))
+        rel = "/".join(rng.choice(comps + ([CA] if i % 5 == 0 else [])) for _ in range(depth))
         path = wc.WATCH + "/" + rel
         off = wc.CPL
         U = rule_universe(path, off)
@@ -179,7 +188,7 @@ def main(rep):
         rep.cov["evaluations"] = len(sc) + len(dc)
         rep.cov["input_distribution"] = kinds
         rep.cov["rule"] = ("sieve(): paths of depth <= %d over components {a, b, .c}, common-parent offsets {1,3,5,len+1}, every single rule "
-                           "(absolute/relative prefixes, '/', rules ending inside or beyond a component) in every set, sampled pairs, random long paths; "
+                           "(absolute/relative prefixes, '/', rules ending inside or beyond a component, rules naming a different directory of equal length and equal 64-bit hash) in every set, sampled pairs, random long paths; "
                            "decisions: random rule assignments to the four path sets, editor and non-editor writers, through the real handle_close_write "
                            "with a Lua configuration; non-trivial = at least one rule matches; distinct by (path, offset, sets)" % (3 if rep.tier == "quick" else 4))
         nontrivial = set()
